@@ -81,6 +81,12 @@ CHECKS['C12'] = ('model_checking',
     'Decimal proxies rest on the contract that the shortest repr of the double nearest to a <=15-digit decimal is that decimal; libm functions, STDEV/VAR, SUMPRODUCT, IFS/SWITCH, TEXTJOIN, VALUE outside; aggregations and search functions on pools, not symbolic values. ' + TB,
     'DESIGN.md §3 C12')
 
+CHECKS['C03'] = ('model_checking',
+    'symbolic execution of the real range/cell marshalling kernels with CrossHair/z3 (symbolic rectangles + witness cell); selector exploration of whole workbooks',
+    'Bounded symbolic checking of the index arithmetic that wires cells to ranges: _get_indices_intersection and _assemble_values copy each cell of every rectangle pair on the full grid from its own offset to its own offset (symbolic witness cell, whole-column bases included). Workbook level by selectors: 1152 dictionary-built workbooks (3 template families x 8x8 constants x 6 insertion orders) calculate to the same values whatever the insertion order, every formula cell equals its own formula applied to the solved values of the cells it refers to (single cells, ranges with blanks, cross-sheet, cross-book, defined name, array formula), constants keep their values.',
+    'Whole-model claims are selector exploration (numpy/schedula cannot carry symbolic values); file loading path and PYTHONHASHSEED outside. ' + TB,
+    'DESIGN.md §3 C03')
+
 NA = {
     'C15': 'the dependency closure is computed over openpyxl worksheets read from .xlsx files while mutating the schedula dispatcher; neither can be given a symbolic state (DESIGN §4)',
     'C16': 'placement is done by openpyxl range iteration zipped with np.ravel and compared by re-reading files: I/O and third-party C code, no encodable kernel (DESIGN §4)',
